@@ -121,6 +121,16 @@ def collect(tier, wd, seed):
             cases.append({"i": i, "name": list(rep_name), "kind": "repeated", "script": "ok", "sid": base["sid"], "secret": sec, "pubkey": base["pubkey"],
                           "digest": list(hashlib.sha1(bytes.fromhex(base["sid"]) + bytes.fromhex(sec) + bytes.fromhex(base["pubkey"])).digest()),
                           "reply_id": "%032x" % (0xC12 << 64 | i), "reply_name": "Player%d" % i})
+    # ... the session service answers with the profile whose id the client CLAIMED (as it does for an honest player); the next login on that
+    # adapter claims the same id under another name -- the service is asked about the name claimed now
+    CLAIMED_ID = "0123456789abcdef0123456789abcdef"   # the id every login of the harness claims
+    base = configs[2 % len(configs)]
+    for j, nm in enumerate((b"Alice", b"Bob", b"Alice")):
+        i = len(cases) + 1
+        sec = hashlib.sha256(b"sameid%d" % j).hexdigest()[:32]
+        cases.append({"i": i, "name": list(nm), "kind": "same-id", "script": "ok", "sid": base["sid"], "secret": sec, "pubkey": base["pubkey"],
+                      "digest": list(hashlib.sha1(bytes.fromhex(base["sid"]) + bytes.fromhex(sec) + bytes.fromhex(base["pubkey"])).digest()),
+                      "reply_id": CLAIMED_ID, "reply_name": nm.decode()})
     # ... a login right after one that was given up on in mid-request (the connection deadline passed): own adapter per case (own server id)
     for j, (pname, prev) in enumerate(((b"Steve", "Earlier"), (b"Alex", "Other&x=y"), ("N\u00e9xt".encode(), "Steve"))):
         i = len(cases) + 1
